@@ -38,7 +38,7 @@ for prop, spec in ROOTS.items():
             if panic.try_discharge(b, s): nd += 1; continue
             if audit.lookup(s): na += 1; continue
             path = [short_name(P.bodies[x].npath) for x in P.path_to(par, bid)]
-            sites.append({'fn': b.npath, 'file': b.file, 'line': s.line, 'kind': s.kind, 'desc': s.desc, 'via': path[-4:]})
+            sites.append({'fn': b.npath, 'file': b.file, 'line': s.line, 'kind': s.kind, 'desc': s.desc, 'cdesc': s.cdesc, 'via': path[-4:]})
     audit.used.clear()
     out[prop] = {'missing_roots': missing, 'bodies': len(par), 'sites': n, 'discharged': nd, 'audited': na, 'unproven': sites}
     print(prop, 'missing', missing, 'bodies', len(par), 'sites', n, 'discharged', nd, 'audited', na, 'unproven', len(sites))
